@@ -549,7 +549,7 @@ pub mod events {
         Value::Object(c)
     }
 
-    /// The 16 families: every content key the spec names for the type in any room version, one
+    /// The 17 families: every content key the spec names for the type in any room version, one
     /// unknown content key (`foo`), one unknown top-level key (`foo`), `unsigned`, `redacts`,
     /// `origin` / `membership` / `prev_state`.
     pub fn families() -> Vec<Family> {
@@ -567,6 +567,12 @@ pub mod events {
             f(
                 "member-invite-3pid-unsigned",
                 base("m.room.member", Some("@bob:sender.org"), member("invite", json!({"third_party_invite": {"display_name": "bob"}}))),
+            ),
+            // the same key on a join (a client that copies the invite content): the sender's server must sign,
+            // so the signatures of this one are actually examined
+            f(
+                "member-join-3pid-unsigned",
+                base("m.room.member", Some("@alice:sender.org"), member("join", json!({"third_party_invite": {"display_name": "bob"}}))),
             ),
             f("member-leave", base("m.room.member", Some("@alice:sender.org"), member("leave", json!({})))),
             f("member-ban", base("m.room.member", Some("@bob:other.org"), member("ban", json!({})))),
